@@ -1,0 +1,12 @@
+//go:build verif
+
+package io
+
+// VerifRegexSources exposes the source of every regular expression compiled in this
+// package (verification hook, build tag verif).
+func VerifRegexSources() map[string]string {
+	return map[string]string{
+		"genericSectionHeaderRegex": genericSectionHeaderRegex.String(),
+		"versionRegex":              versionRegex.String(),
+	}
+}
